@@ -218,6 +218,11 @@ def run(ctx):
             pats.append(bytes(rng.getrandbits(8) for _ in range(ln - 1)) + b"\x00")
         if not ctx.quick:
             pats += [bytes(rng.getrandbits(8) for _ in range(ln)) for _ in range(6)]
+        if 6 <= ln:
+            # byte strings that are themselves complete, valid frames (remainder zero, consistent header) and
+            # near misses of them: the helpers are defined for EVERY byte string
+            fr = make_frame(rng, ln)
+            pats += [fr, fr[:-1], fr + b"\x00", b"\x00" + fr, refcrc.frame(fr[: min(len(fr), 1023)])[: ln]]
         for p in pats:
             if not crc_case(ctx, p, "pattern"):
                 return
